@@ -85,7 +85,8 @@ def swept(ctx: Ctx, n: int) -> None:
         face_pts = [vadd(p, shift) for p in base]
         axis = [rng.uniform(-0.15, 0.15), rng.uniform(-0.15, 0.15), rng.choice([-1, 1]) * rng.uniform(0.4, 3.0)]   # non-unit
         origin = vadd([u(-0.4, 0.4), u(-0.4, 0.4), u(-1, 1)], shift)
-        theta = rng.uniform(0.3, 2.6)
+        # one in four revolves sweeps more than half a turn (its side arcs are reflex; inverted or mirrored, negative and reflex)
+        theta = rng.uniform(0.3, 2.6) if rng.random() < 0.75 else rng.uniform(3.4, 5.2)
         steps = [rng.choice(STEPS) for _ in range(rng.choice([0, 1, 1, 2, 3]))]
         B = [list(p) for p in face_pts]
         T = [rot(p, theta, axis, origin) for p in face_pts]
